@@ -987,7 +987,13 @@ def _find_self(
     try:
         instance_i = param_names.index("self")
     except ValueError:
-        pass
+        # The instance is the first argument of a method even if the parameter is named differently
+        # (or if it is collected by a variadic parameter).
+        if len(args) > 0:
+            return args[0]
+
+        if len(param_names) > 0 and param_names[0] in kwargs:
+            return kwargs[param_names[0]]
 
     if instance_i is not None and instance_i < len(args):
         return args[instance_i]
